@@ -348,6 +348,9 @@ func (fx *FnExec) analyseLoop(fr *frame, li *loopInfo) {
 					k = funcKey(callee)
 				} else {
 					k = globalFuncKey(cc)
+					if k == "" {
+						k = fieldFuncKey(cc)
+					}
 				}
 				if k != "" && fx.eng.traced[k] {
 					if li.modTrace == nil {
